@@ -443,8 +443,7 @@ func (rs *runState) commitPhase() (verdicts int) {
 // status is the consensus status of a node that has committed the block at H.
 func (rs *runState) status() cs.NewStatus {
 	w := rs.w
-	next := w.valSet.Copy()
-	next.IncrementAccum(1)
+	next := w.nextSet().Copy()
 	return cs.NewStatus{
 		ChainID:                     w.chainID,
 		LastBlockHeight:             w.H,
